@@ -1,11 +1,13 @@
 import Sm9.Proofs.Pow
+import Sm9.Proofs.GtOrder
 import Sm9.Model.Api
 /-!
 # C11 — Gt is a commutative group of order r and pow is exponentiation
 The laws hold on **all** of Fq12 (the model's Karatsuba product and CH-SQR2 squaring),
-hence on every pairing value.  Reduction of exponents modulo r additionally needs
-`g ^ r = 1` for pairing values, which is `gt_order` (C17's final-exponentiation theorem);
-until that lands the exponent laws are stated on natural-number exponents.
+hence on every pairing value; every output of a final exponentiation has order dividing r
+(`gt_order`), so exponents reduce modulo r on Gt; `inverse` is the field inverse.
+The statements about the 384-byte encoding (== iff equal encodings, limbs < q) are decided
+on the real crate by `gtk.ops`.
 -/
 namespace Sm9.C11
 
@@ -34,4 +36,13 @@ theorem pow_add_mod (g : Fq12) (hg : g ^ r = 1) (a b : Fr) :
   have hab : (a + b).val = (a.val + b.val) % r := rfl
   rw [hab]
   conv_lhs => rw [← Nat.div_add_mod (a.val + b.val) r, pow_add, pow_mul, hg, one_pow, one_mul]
+/-- pairing values (outputs of the final exponentiation) have order dividing r -/
+theorem gt_order (f g : Fq12) (h : f.final_exp = .ok (some g)) : g ^ r = 1 ∧ g ^ (r - 1) * g = 1 :=
+  Sm9.gt_order f g h
+/-- hence the exponent laws hold modulo r on Gt -/
+theorem gt_pow_add (f g : Fq12) (h : f.final_exp = .ok (some g)) (a b : Fr) :
+    Api.gtPow g a * Api.gtPow g b = Api.gtPow g (a + b) := pow_add_mod g (Sm9.gt_order f g h).1 a b
+/-- `Gt::inverse`: `Some` of the multiplicative inverse for every non-zero element -/
+theorem inverse_correct (g : Fq12) (hg : g ≠ 0) : ∃ i, g.inverse = some i ∧ i * g = 1 := Fq12.inverse_correct g hg
+
 end Sm9.C11
